@@ -47,6 +47,9 @@ Read(f) ==
     [] f.payload = "valid"             -> "accept"
     [] f.kind \in IgnoredPayloadKinds  -> "any"        \* payload deliberately not interpreted
     [] f.kind = "version" /\ f.payload = "truncatedInside" -> "any"   \* trailing fields of version are optional on the wire
+    \* in `reject` and `version` the "count" is the length of a string in the middle of the payload: a slightly longer one may
+    \* still parse (the fields behind it shift); an error or a message are both allowed, the bounds on allocation stay
+    [] f.kind \in {"reject", "version"} /\ f.payload = "countInflated" -> "any"
     [] f.payload \in {"truncatedInside", "countInflated", "countHuge"} -> "reject"
     [] OTHER                           -> "any"        \* trailing garbage / bit flips with a recomputed checksum
 
